@@ -25,7 +25,53 @@ impl Prop for C14 {
         let mut o = GenOpts::valid();
         o.max_tracks = 8;
         o.long_ops = if tier == Tier::Thorough { 1500 } else { 200 };
-        gen_mux(&mut r, &o)
+        let mut sc = gen_mux(&mut r, &o);
+        // configurations the muxer rejects, interleaved with the valid ones: a rejected
+        // add_track must not disturb what is reported for the tracks added after it
+        if r.chance(1, 8) {
+            let n_add = sc.track_count();
+            if n_add > 0 {
+                let at = sc.ops.iter().position(|op| matches!(op, Op::AddTrack(_))).unwrap_or(0) + if r.chance(1, 2) { 0 } else { 1 };
+                if let Some(Op::AddTrack(t)) = sc.ops.iter().find(|op| matches!(op, Op::AddTrack(_))) {
+                    let mut bad = t.clone();
+                    match r.below(3) {
+                        0 => bad.timescale = 0,
+                        1 => {
+                            bad.kind = Kind::Avc;
+                            bad.sps = vec![0x67; r.below(4) as usize];
+                        }
+                        _ => {
+                            bad.kind = Kind::Avc;
+                            bad.pps = vec![0x68; 70_000];
+                        }
+                    }
+                    let at = at.min(sc.ops.len() - 1);
+                    // insert only in front of tracks (ids written to must stay those of accepted tracks)
+                    if matches!(sc.ops.get(at), Some(Op::AddTrack(_))) || at == 0 {
+                        sc.ops.insert(at, Op::AddTrack(bad));
+                    }
+                }
+            }
+        }
+        // a very long history of tiny samples with maximal durations: the summed media duration
+        // times 10^6 passes 2^64 (4295+ samples) - cheap to mux, and only the accessors are read
+        if r.chance(1, 150) {
+            let ts = *r.pick(&[2u32, 1000, 90000, 48000]);
+            let mut ops = vec![Op::AddTrack(TrackCfg { timescale: ts, ..match sc.ops.iter().find_map(|op| if let Op::AddTrack(t) = op { Some(t.clone()) } else { None }) {
+                Some(t) if t.timescale > 0 => t,
+                _ => gen_track_cfg(&mut r, &o, &[Kind::Aac, Kind::Ttxt, Kind::Hevc]),
+            } })];
+            let n = 4295 + r.below(1200) as u32;
+            for i in 0..n {
+                ops.push(Op::Write { track_id: 1, s: SampleW { payload: Payload::Stamp { len: (i % 2) as u32, tag: i + 1 }, duration: u32::MAX - (i % 3), offset: 0, sync: true, start_time: 0 } });
+            }
+            ops.push(Op::End);
+            sc.ops = ops;
+            sc.cfg.timescale = *r.pick(&[1u32, 1000, 600]);
+            sc.io = IoKnobs::plain();
+            fit_durations(&mut sc);
+        }
+        sc
     }
     fn eval(sc: &MuxScenario, st: &mut Stats) -> Vec<Violation> {
         let prop = "C14";
@@ -34,7 +80,7 @@ impl Prop for C14 {
         let mut scratch = Vec::new();
         if modea::check_calls(prop, sc, &outp.run, &mut scratch) {
             let model = Model::build(prop, sc, &outp.run, &mut scratch);
-            check_config(prop, &outp.sim, sc, &model, true, &mut out);
+            check_config(prop, &outp.sim, sc, modea::output_end(&outp), &model, true, &mut out);
             for t in &model.tracks {
                 let c = &t.cfg;
                 // distinct measure: configuration classes met
@@ -50,6 +96,8 @@ impl Prop for C14 {
                 st.probe("probe.duration_over_u32", t.total_duration > u32::MAX as u64);
             }
             st.probe("probe.nonascii_brand", sc.cfg.major.iter().any(|b| *b >= 0x80));
+            st.probe("probe.rejected_add_track_before_accepted", outp.run.results[1..].iter().zip(sc.ops.iter()).any(|(r, op)| matches!(op, Op::AddTrack(_)) && !r.is_ok()));
+            st.probe("probe.media_duration_times_1e6_over_u64", model.tracks.iter().any(|t| t.total_duration as u128 * 1_000_000 > u64::MAX as u128));
         } else {
             st.inc("history_not_finished");
         }
@@ -69,6 +117,6 @@ impl Prop for C14 {
         ]
     }
     fn mandatory_probes(_t: Tier) -> Vec<&'static str> {
-        vec!["probe.aac_object_type_ge32", "probe.duration_over_u32", "probe.nonascii_brand"]
+        vec!["probe.aac_object_type_ge32", "probe.duration_over_u32", "probe.nonascii_brand", "probe.rejected_add_track_before_accepted", "probe.media_duration_times_1e6_over_u64"]
     }
 }
